@@ -1,4 +1,5 @@
 import VrpModel.Qubo
+import VrpModel.Graph
 /-!
 # Constrained 0-1 program data and `RoutingProblem.get_qubo`
 
@@ -72,5 +73,14 @@ def MPData.wellShaped (d : MPData) : Bool :=
   d.A.all (fun e => e.1 < d.m && e.2.1 < d.n) &&
   d.R.all (fun e => e.1 < d.n && e.2 < d.n) &&
   d.Qobj.all (fun e => e.1 < d.n && e.2.1 < d.n)
+
+/-- `get_qubo(feasibility, penalty_parameter)` as a partial operation: the sparse assembly (`A.T @ A`, `diags`, sums of
+    matrices) raises unless the reported data have consistent shapes; otherwise `(Q, k)` for the given or the default
+    penalty weight -/
+def MPData.getQubo (d : MPData) (suff : Rat) (feas : Bool) (rho? : Option Rat) : Except Err (Mat × Rat) :=
+  if d.wellShaped then
+    let rho := rho?.getD (defaultRho suff feas)
+    .ok (d.quboQ rho feas, d.quboK rho)
+  else .error Err.shape
 
 end Vrp
